@@ -88,3 +88,27 @@ func vCraftMissingDuplicate(t testing.TB, e *vEnv, keep []string, rng *rand.Rand
 	}
 	return fmt.Sprintf("lost-%d-packs-with-duplicates-of-needed-blobs", lost), nil
 }
+
+// vCraftDuplicates stores duplicates of up to two needed data blobs into a new pack and keeps it.
+func vCraftDuplicates(t testing.TB, e *vEnv, keep []string, rng *rand.Rand) (string, error) {
+	before := map[string]bool{}
+	for _, p := range e.store.Names(backend.PackFile) {
+		before[p] = true
+	}
+	// reuse the crafting code, then put the lost packs back
+	files := map[backend.Handle][]byte{}
+	ops0 := e.store.NumOps()
+	desc, err := vCraftMissingDuplicate(t, e, keep, rng)
+	if err != nil {
+		return "", err
+	}
+	for _, op := range e.store.Ops()[ops0:] {
+		if op.Kind == "Save" && op.OK && op.H.Type == backend.PackFile {
+			files[op.H] = op.Data
+		}
+	}
+	for h, d := range files {
+		e.store.EnvPut(h, d)
+	}
+	return desc, nil
+}
